@@ -12,11 +12,18 @@ const MAX_TOKEN_COUNT: usize = 128;
 pub fn encode(mut src: &[u8]) -> io::Result<Vec<u8>> {
     let mut dst = Vec::new();
 
+    // An empty input is an empty list of names, not a list of one empty name.
+    let is_empty = src.is_empty();
+
     if let Some(buf) = src.strip_suffix(&[NUL]) {
         src = buf;
     }
 
-    let names: Vec<_> = src.split(|&b| b == NUL).collect();
+    let names: Vec<_> = if is_empty {
+        Vec::new()
+    } else {
+        src.split(|&b| b == NUL).collect()
+    };
 
     write_header(&mut dst, src.len(), names.len())?;
 
